@@ -125,8 +125,8 @@ L2Q, L2T = (50, 2), (600, 4)
 PLANS = {
     "C01": dict(mc=MC("sync", "mixed", thorough=["t_sync"]) + MCA("2p"), spec_l1l0=True, runs=[R("general", (250, 4000), (3, 6), "C01", True), R("sync", (150, 2000), (3, 6), "C01", True),
                       R("async", (150, 2000), (3, 6), "C01", True), R("chain", (100, 2000), (2, 6), "C01", True)]),
-    "C02": dict(mc=MC("sync", "mixed", thorough=["t_sync"], bounded=["t_sync4"]), runs=[R("chain_s", (250, 4000), (3, 6), "C02", True), R("fifo", (250, 5000), (4, 8), "C02"), R("general", (150, 2000), (3, 5), "C02")]),
-    "C03": dict(mc=MC("mixed", "async", thorough=["t_async"], bounded=["t_mixed"]) + MCA("2p"), spec_replay=True, spec_l1l0=True, runs=[R("general", (400, 8000), (3, 6), None, True), R("sync", (150, 2000), (3, 6), None, True),
+    "C02": dict(mc=MC("sync", "mixed", thorough=["t_sync"], bounded=["t_sync4"]), spec_l2l1=True, runs=[R("chain_s", (250, 4000), (3, 6), "C02", True), R("fifo", (250, 5000), (4, 8), "C02"), R("general", (150, 2000), (3, 5), "C02")]),
+    "C03": dict(mc=MC("mixed", "async", thorough=["t_async"], bounded=["t_mixed"]) + MCA("2p"), spec_replay=True, spec_l1l0=True, spec_l2l1=True, runs=[R("general", (400, 8000), (3, 6), None, True), R("sync", (150, 2000), (3, 6), None, True),
                       R("async", (150, 3000), (3, 6), None, True), R("timed", (150, 3000), (3, 6), None, True),
                       R("chain", (150, 3000), (2, 6), None, True), R("close", (200, 3000), (3, 6), None, True)]),
     "C05": dict(mc=MC("timed", "async", thorough=["t_async"], bounded=["t_timed"]) + MCA("2p"), spec_l1l0=True, runs=[R("general", (250, 4000), (3, 6), "C05", True), R("timed", (200, 3000), (3, 6), "C05", True),
@@ -142,9 +142,10 @@ PLANS = {
                       R("timed", (100, 3000), (3, 6), None, False, rawmon=[("HBMonitor", "HBMonitor.cfg")])],
                 assume=["happens-before is computed from the orderings actually passed to the atomics on sequentially consistent interleavings; stale relaxed reads of weaker-than-SC executions are not enumerated"]),
     "C08": dict(mc=MC("sync", thorough=["t_sync"]), runs=[R("capacity", (300, 5000), (3, 6), "C08", True), R("general", (150, 2000), (3, 5), "C08", True)]),
-    "C10": dict(mc=MC("sync", "timed", "closeclone", thorough=["t_sync"], bounded=["t_timed"]), runs=[R("close", (300, 5000), (3, 6), "C10", True), R("general", (150, 2000), (3, 5), "C10", True)]),
+    "C10": dict(mc=MC("sync", "timed", "closeclone", thorough=["t_sync"], bounded=["t_timed"]), spec_l2l1=True, runs=[R("close", (300, 5000), (3, 6), "C10", True), R("general", (150, 2000), (3, 5), "C10", True)]),
     "C11": dict(mc=MC("handles", "closeclone", thorough=["t_handles"]), runs=[R("hseq", (0, 0), (1, 1), "C11", True, programs_fn=handle_programs, own_all=True),
-                                        R("disconnect", (300, 5000), (3, 6), "C11", True), R("general", (150, 2000), (3, 5), "C11", True)]),
+                                        R("disconnect", (300, 5000), (3, 6), "C11", True), R("general", (150, 2000), (3, 5), "C11", True),
+                                        R("discrace", (0, 0), (1, 1), "C11", True, own_all=True, programs_fn=freeze_sweep("discrace", (16, 200), (45, 60), "discrace11"))]),
     "C12": dict(mc=MC("handles", "closeclone", thorough=["t_handles"]) + MCA("1p"), runs=[R("hseq", (0, 0), (1, 1), "C12", True, programs_fn=handle_programs, own_all=True),
                                         R("handles", (300, 5000), (3, 6), "C12", True)]),
     "C13": dict(mc=MC("timed", bounded=["t_timed"]), runs=[R("timed", (400, 6000), (4, 8), "C13", True), R("chain", (150, 3000), (2, 6), "C13", True)]),
@@ -389,6 +390,9 @@ def run_check(prop, tier, seed, build=True):
     if plan.get("spec_l1l0"):
         import l1l0
         stage("l1-l0", lambda: l1l0.run_stage(wd, tier, seed, stats, findings))
+    if plan.get("spec_l2l1"):
+        import l2l1
+        stage("l2-l1", lambda: l2l1.run_stage(wd, tier, seed, stats, findings))
     known = load_known()
     rc = 0
     nviol = 0
@@ -420,6 +424,8 @@ def run_check(prop, tier, seed, build=True):
         spec_behaviours_followed_exactly=stats.get("spec_behaviours_followed_exactly", 0),
         ideal_channel_histories_accepted_by_l0=stats.get("spec_l1_histories_l0", 0),
         ideal_channel_histories_accepted_by_l1_validator=stats.get("spec_l1_histories_l1", 0),
+        l2_spec_histories_accepted_by_l0=stats.get("spec_l2_histories_l0", 0),
+        l2_spec_histories_linearizable_to_l1=stats.get("spec_l2_histories_l1", 0),
         samples=(stats["samples"] or [dict(note="no execution recorded")]) + ([stats["spec_sample"]] if stats.get("spec_sample") else []),
         model_checking=stats["mc"],
         model_states=stats["mc_states"], model_transitions=stats["mc_trans"],
